@@ -126,14 +126,18 @@ Inductive ev :=
 | EConn | EUpd (k i j : nat) | ESync           (* NotificationHandler invocations *)
 | EDisc | EReset                               (* ReconnectClient callbacks *)
 | ESubRet (r : rcls) | ECloseRet (ok : bool)   (* the calls return *)
-| EHang | EPanic.                              (* watchdog / recovered panic: never shown by the model *)
+| EHang | EPanic                               (* watchdog / recovered panic: never shown by the model *)
+| ECorrupt      (* a notification the application kept was modified afterwards: never shown by the model *)
+| ENoBackoff    (* a retry followed its disconnect without the backoff sleep: never shown by the model *)
+| ERace.        (* the Go race detector reported a data race inside the client packages (the critical
+                   sections the model takes as atomic are not): never shown by the model *)
 
 (** * State *)
 
 Inductive spc :=
-| SIdle | SInit
+| SIdle | SInit | SClear
 | SFactory | SFacChk | SImplSub | SImplSubChk | SSubFailClose
-| SInstall | SInstall2
+| SInstall | SInstall2 | SInstClosed
 | SRecv (i : nat) | SItem (i : nat) | SDeliver (i j n : nat) | SSyncEnd (i : nat)
 | SChk (i : nat) | SRunClose
 | SDisc | SCtxChk | SSleep | SReset
@@ -152,7 +156,7 @@ Record st := mk {
   ctx_r : bool; ctx_p : bool; ncancel : nat; nsleep : nat;
   b_closed : bool; b_impl : oimpl; b_mu : bool;
   c_done : bool   (* ghost: reconnect -- some Close call has returned; bare client -- a Close
-                     call returned nil since the current Subscribe call was made *) }.
+                     call made after the current Subscribe call re-opened the client returned nil *) }.
 
 Definition init : st :=
   mk SIdle 0 false false false CIdle false false XIdle false false SDNil false false 0 0 false NoImpl false false.
@@ -199,13 +203,17 @@ Section Model.
   Definition sstep (s : st) : list (option ev * st) :=
     let k := s_att s in
     match s_pc s with
-    | SIdle => [(Some ESubCall, set_spc (if reconnect then SInit else SFactory) s)]
+    | SIdle => [(Some ESubCall, set_spc (if reconnect then SInit else SClear) s)]
     | SInit =>
         (* initDone, under p.mu: subscribeDone = make(chan); ctx, p.cancel = WithCancel(ctx);
            if p.closed { p.cancel() } *)
         (* a fresh context and cancel function for this call *)
         let s1 := set_hascancel true (set_subdone SDOpen (set_ncancel 0 (set_ctxr false s))) in
-        [(None, set_spc SFactory (if r_closed s then do_cancel s1 else s1))]
+        [(None, set_spc SClear (if r_closed s then do_cancel s1 else s1))]
+    | SClear =>
+        (* BaseClient.Subscribe, on entry: c.mu.Lock(); c.closed = false; c.mu.Unlock()
+           (a new Subscribe re-opens the client before it connects) *)
+        if b_mu s then [] else [(None, set_spc SFactory (set_bclosed false s))]
     | SFactory => [(Some (EFactory k), set_spc SFacChk s)]
     | SFacChk =>
         if a_init (sc k) && negb (cancelled s)
@@ -221,12 +229,17 @@ Section Model.
         (* c.mu.Lock(); if c.clientImpl != nil { c.clientImpl.Close() } *)
         if b_mu s then []
         else match b_impl s with
-             | NoImpl => [(None, set_spc (SRecv 0) (set_bimpl (Impl k) (set_bclosed false s)))]
+             | NoImpl =>
+                 [(None, set_spc (if b_closed s then SInstClosed else SRecv 0) (set_bimpl (Impl k) s))]
              | Impl j => [(Some (EImplClose j), set_spc SInstall2 (set_bmu true s))]
              end
     | SInstall2 =>
-        (* c.clientImpl = impl; c.closed = false; c.mu.Unlock() *)
-        [(None, set_spc (SRecv 0) (set_bmu false (set_bimpl (Impl k) (set_bclosed false s))))]
+        (* c.clientImpl = impl; closed := c.closed; c.mu.Unlock() *)
+        [(None, set_spc (if b_closed s then SInstClosed else SRecv 0)
+                        (set_bmu false (set_bimpl (Impl k) s)))]
+    | SInstClosed =>
+        (* closed while connecting: impl.Close(); return nil *)
+        [(Some (EImplClose k), end_attempt false (set_curcl true s))]
     | SRecv i => [(Some (ERecv k i), set_spc (SItem i) s)]
     | SItem i =>
         match nth_error (a_items (sc k)) i with
@@ -256,17 +269,18 @@ Section Model.
         if cancelled s then [(None, set_spc SDone s)]
         else [(None, set_spc SSleep s)]
     | SSleep => [(None, set_spc SReset (set_nsleep (S (nsleep s)) s))]
-    | SReset => [(Some EReset, set_spc SFactory (set_att (S k) s))]
+    | SReset => [(Some EReset, set_spc SClear (set_att (S k) s))]
     | SDone => [(None, set_spc (SRet RCanceled) (set_subdone SDClosed s))]
     | SRet r => [(Some (ESubRet r), set_spc SFin s)]
     | SFin =>
         (* the application calls Subscribe again on the same client (calls on one
            client are sequential per kind; transport attempts keep their numbering).
-           Bare client: not while a Close call is still in progress. *)
+           Bare client: not while a Close call is still in progress (such a Close
+           is taken to precede the new call). *)
         if reconnect
         then [(Some ESubCall, set_spc SInit (set_att (S k) s))]
         else match c_pc s with
-             | CIdle | CFin => [(Some ESubCall, set_spc SFactory (set_att (S k) (set_cdone false s)))]
+             | CIdle | CFin => [(Some ESubCall, set_spc SClear (set_att (S k) (set_cdone false s)))]
              | _ => []
              end
     end.
@@ -275,11 +289,12 @@ Section Model.
   Definition cstep (s : st) : list (option ev * st) :=
     match c_pc s with
     | CIdle | CFin =>
-        (* Close may be called any number of times.  Bare client: during the
-           first Subscribe call at any moment, later only between Subscribe calls. *)
+        (* Close may be called any number of times, at any moment.  For a bare
+           client [c_wait] is used as a ghost: was the call made after the
+           Subscribe call in progress had re-opened the client ([SClear])? *)
         if reconnect then [(Some ECloseCall, set_cpc CLock s)]
-        else if Nat.eqb (s_att s) 0 || match s_pc s with SFin => true | _ => false end
-             then [(Some ECloseCall, set_cpc CBase s)] else []
+        else [(Some ECloseCall,
+               set_cpc CBase (set_cwait (match s_pc s with SIdle | SClear | SFin => false | _ => true end) s))]
     | CLock =>
         (* under p.mu: if p.cancel != nil { p.cancel() }; p.closed = true; return p.subscribeDone *)
         let s1 := if r_hascancel s then do_cancel s else s in
@@ -299,11 +314,11 @@ Section Model.
     | CBaseHold => [(None, set_cpc CWait (set_bmu false s))]
     | CWait =>
         (* if subscribeDone != nil { <-subscribeDone } *)
-        if c_wait s
+        if c_wait s && reconnect
         then match r_subdone s with SDClosed => [(None, set_cpc CRet s)] | _ => [] end
         else [(None, set_cpc CRet s)]
     | CRet => [(Some (ECloseRet (c_ok s)),
-                set_cpc CFin (set_cdone (if reconnect then true else c_ok s) s))]
+                set_cpc CFin (set_cdone (if reconnect then true else c_done s || (c_ok s && c_wait s)) s))]
     end.
 
   (** ** the canceller of the caller's context *)
@@ -316,7 +331,9 @@ Section Model.
 
   Definition step (s : st) : list (option ev * st) := sstep s ++ cstep s ++ xstep s.
 
-  (* DEFECT C18_1 *)
+  (* DEFECT C18_1 -- fixed by /repo 4c160ca; the model above is the patched code:
+     [SClear], the [closed] test at the install step, [SInstClosed], no side
+     condition on Close calls.  The text below describes the unpatched variant. *)
   (** The code as it is now also lets Close be called on a bare client while a
       second or later Subscribe call is still in progress.  [cstep] leaves that
       call out (its side condition on [CIdle | CFin]); this extra transition is
@@ -329,7 +346,7 @@ Section Model.
       is called instead of at the install step, and the install step, finding
       [closed] set, closes the new transport and returns nil -- to be modelled in
       [sstep] ([SInstall]) together with dropping the side condition in [cstep]. *)
-  Definition defect_C18_1 : bool := true.
+  Definition defect_C18_1 : bool := false.
 
   Definition defect_steps (s : st) : list (option ev * st) :=
     if negb defect_C18_1 || reconnect then []
@@ -342,6 +359,12 @@ Section Model.
 
   (** the code as it is now *)
   Definition step_now (s : st) : list (option ev * st) := step s ++ defect_steps s.
+
+  (** ... as seen when the ReconnectClient was built with nil disconnect / reset
+      callbacks: those two steps are silent *)
+  Definition step_nocb (s : st) : list (option ev * st) :=
+    map (fun ls => (match fst ls with Some EDisc | Some EReset => None | l => l end, snd ls))
+        (step_now s).
 End Model.
 
 (** A finite script: attempts beyond the list fail in the constructor. *)
